@@ -3,7 +3,8 @@ import CoclsModel.Generated.AllocSites
 Allocation-event model of "core programs" (C20).
 
 A core program is a list of operations performed by ordinary code on one thread — creating / resolving / awaiting
-(callback awaiter, blocking-thread awaiter) / destroying future-promise pairs, `try_lock` / release of a coroutine
+(callback awaiter, blocking-thread awaiter) / destroying future-promise pairs, `promise::bind` (creating, invoking,
+destroying the bound callable, any size of bound value), `try_lock` / release of a coroutine
 mutex, `<<` / `pop` / `clear` on a suspend point, merging whole suspend points (`<<`, move-assignment, the result of a
 resolution merged into a suspend point object), creating / stepping / destroying a synchronous generator, and
 creating scripted coroutines (`async<T>`, heap or non-heap frame, detached or bound to a promise) whose scripts
@@ -94,6 +95,7 @@ structure Fut where
   ready : Bool := false
   outcome : Outcome := .none
   chain : List Waiter := []   -- awaiter chain, head = most recently subscribed
+  bnd : Option Bool := none   -- a callable made by `promise::bind` exists; `some true` = it still holds the promise
   deriving Repr, Inhabited
 
 inductive CoSt where
@@ -472,6 +474,9 @@ inductive Op where
   | sf (k : Nat)
   | sm (k k2 : Nat)                  -- `S_k << std::move(S_k2)` / `S_k = std::move(S_k2)`
   | rm (k i : Nat) (kd : Kind)       -- `S_k << P_i(..)`: the result of a resolution is merged into `S_k`
+  | bd (i size : Nat)                -- `B_i = P_i.bind(value of `size` bytes)`: the promise moves into the callable
+  | bi (i : Nat)                     -- `B_i()`: resolve with the bound value
+  | bx (i : Nat)                     -- destroy `B_i` (drops the promise if it was never invoked)
   | gen (g : Nat) (heap : Bool) (n : Nat)
   | gs (g : Nat) (viaFuture : Bool)
   | gd (g : Nat)
@@ -500,6 +505,23 @@ def drainMx (fuel : Nat) (s : State) (m : Nat) : State :=
 def drainFut (fuel : Nat) (s : State) (i : Nat) : State :=
   if (s.futs i).existed && !(s.futs i).claimed then dropNormal fuel (resolve (setMoved s true) i .d) else s
 
+/-- `B_i()`: the bound callable resolves the future with the bound value (once) -/
+def callBound (fuel : Nat) (s : State) (i : Nat) : State :=
+  match (s.futs i).bnd with
+  | none => s
+  | some true => dropNormal fuel (settle (setFut s i { s.futs i with bnd := some false }) i (.value (100 + i)))
+  | some false => dropNormal fuel (clearTmp s)
+
+/-- the bound callable is destroyed: `~promise` resolves without a value if the callable was never invoked -/
+def killBound (fuel : Nat) (s : State) (i : Nat) : State :=
+  match (s.futs i).bnd with
+  | none => s
+  | some true => dropNormal fuel (settle (setFut s i { s.futs i with bnd := none }) i .canceled)
+  | some false => setFut s i { s.futs i with bnd := none }
+
+def drainBnd (fuel : Nat) (s : State) (i : Nat) : State :=
+  if (s.futs i).bnd.isSome then killBound fuel (setMoved s true) i else s
+
 def drainCo (fuel : Nat) (s : State) (j : Nat) : State :=
   if (s.cos j).st = .parked then resumeNormal fuel (setSt (setMoved s true) j .active) j else s
 
@@ -512,8 +534,9 @@ def drainSp (fuel : Nat) (s : State) (k : Nat) : State :=
 def drainRound (fuel : Nat) (s : State) : State :=
   (List.range nSp).foldl (drainSp fuel)
     ((List.range maxId).foldl (drainCo fuel)
-      ((List.range maxId).foldl (drainFut fuel)
-        ((List.range nMx).foldl (drainMx fuel) (setMoved s false))))
+      ((List.range maxId).foldl (drainBnd fuel)
+        ((List.range maxId).foldl (drainFut fuel)
+          ((List.range nMx).foldl (drainMx fuel) (setMoved s false)))))
 
 def drain : Nat → Nat → State → State
   | 0, _, s => s
@@ -552,6 +575,12 @@ def step (fuel : Nat) (s : State) : Op → State
   | .sf k => flushSp fuel s k
   | .sm k k2 => if k = k2 then s else mergeTmpInto (loadSp s k2) k
   | .rm k i kd => if (s.futs i).existed then mergeTmpInto (resolve s i kd) k else s
+  | .bd i _ =>
+      if (s.futs i).existed && (s.futs i).bnd.isNone then
+        setFut s i { s.futs i with bnd := some (!(s.futs i).claimed), claimed := true }
+      else s
+  | .bi i => callBound fuel s i
+  | .bx i => killBound fuel s i
   | .gen g heap n =>
       if (s.gens g).exist then s
       else setGen (allocFrame s heap) g { exist := true, heap := heap, next := 0, n := n, done := false }
